@@ -48,7 +48,7 @@ func c16Posts(c *Ctx, r *Report, rule string) map[*ssa.Function]*postCond {
 		nret++
 		off := ri.Vals[1]
 		// 1 <= off
-		for _, lf := range leavesOrSelf(off, ri.Ret) {
+		for _, lf := range leavesOrSelfAt(off, ri.At) {
 			d := polyAdd(constPoly(1), e.fe.eval(lf.val), -1)
 			if ok, _ := e.prove(d, 0, lf.from, lf.at); !ok {
 				okOff1 = false
@@ -191,6 +191,13 @@ func shiftOrAccumulation(f *ssa.Function) (bool, string) {
 		return false, "no non-error return"
 	}
 	return true, ""
+}
+
+func leavesOrSelfAt(v ssa.Value, at *ssa.BasicBlock) []phiLeaf {
+	if ph, ok := v.(*ssa.Phi); ok && ph.Block() == at {
+		return leavesOf(v)
+	}
+	return []phiLeaf{{val: v, from: nil, at: at}}
 }
 
 func leavesOrSelf(v ssa.Value, at ssa.Instruction) []phiLeaf {
@@ -395,6 +402,19 @@ func checkC16(c *Ctx, r *Report) {
 							if _, isAlloc := st.Addr.(*ssa.Alloc); isAlloc {
 								continue // assignment to the result variable itself
 							}
+							// assignment to a member of a named result of this function (handed back with the error)
+							if a, ok := allocBase(st.Addr).(*ssa.Alloc); ok {
+								named := false
+								res := f.Signature.Results()
+								for i := 0; i < res.Len(); i++ {
+									if res.At(i).Name() != "" && res.At(i).Name() == a.Comment {
+										named = true
+									}
+								}
+								if named {
+									continue
+								}
+							}
 						}
 						if ret, isRet := use.(*ssa.Return); isRet {
 							// handed back together with the error itself: propagation, not use
@@ -402,6 +422,27 @@ func checkC16(c *Ctx, r *Report) {
 							for _, rv := range ret.Results {
 								if rv == errV {
 									prop = true
+								}
+							}
+							if prop {
+								continue
+							}
+						}
+						if ph, isPhi := use.(*ssa.Phi); isPhi {
+							// merged into result variables together with the error (an inlined `return v, err`)
+							prop := true
+							for i, ed := range ph.Edges {
+								if ed != ssa.Value(ex) || onSuccessEdge(call, ph.Block().Preds[i]) {
+									continue
+								}
+								withErr := false
+								for _, ins2 := range ph.Block().Instrs {
+									if s2, ok := ins2.(*ssa.Phi); ok && s2 != ph && i < len(s2.Edges) && s2.Edges[i] == errV {
+										withErr = true
+									}
+								}
+								if !withErr {
+									prop = false
 								}
 							}
 							if prop {
